@@ -27,6 +27,8 @@ def programs(chk):
         add("control-flow skeletons", c15.CF_PRELUDE % (bits,) + gen_cf.program(b, pl))
     for _ in range(600 if big else 40):
         add("destructuring", gen_assign.destructure_program(rng))
+    for _, p in gen_assign.store_programs():
+        add("stores (slices, simultaneous and chained assignments)", p)
     allc = list(gen_class.all_programs())
     for key, p in (allc if big else rng.sample(allc, 60)):
         add("class programs", p)
